@@ -23,7 +23,8 @@ go vet ./... >>$LOG 2>&1; VET=$?
 go test -vet=off -count=1 ./... >>$LOG 2>&1; SUITE=$?
 cp $SRC/demo_test.go $DEMO_DIR/zz_seeded_demo_test.go
 go test -vet=off -count=1 -run "^($TESTS)\$" ./$DEMO_DIR >>$LOG 2>&1; WITH=$?
-git checkout -q -- . 
+git checkout -q -- . ; git clean -fdq   # changes that add files must not leave them behind
+cp $SRC/demo_test.go $DEMO_DIR/zz_seeded_demo_test.go
 go test -vet=off -count=1 -run "^($TESTS)\$" ./$DEMO_DIR >>$LOG 2>&1; WITHOUT=$?
 rm -f $DEMO_DIR/zz_seeded_demo_test.go
 echo "$ID suite_rc=$SUITE vet_rc=$VET demo_with_change_rc=$WITH demo_without_change_rc=$WITHOUT tests=$TESTS"
